@@ -56,6 +56,8 @@ type World struct {
 	eventsDone []bool
 	untagged   []*rpcState
 	raw          *rawPeer
+	serverSeqBase int // tunnel servers registered before this world started are not ours
+	frozen       bool // the final snapshot has been taken; later completions are the harness's teardown
 	freeSetup    bool
 	parked       []*parkedYield
 	released     bool
@@ -77,8 +79,9 @@ type revChan struct {
 }
 
 type revServer struct {
-	idx int
-	rs  *grpctunnel.ReverseTunnelServer
+	idx  int
+	rs   *grpctunnel.ReverseTunnelServer
+	conn *Conn // the connection its stub uses (every tunnel of this server is a carrier stream on it)
 }
 
 type tunnelState struct {
@@ -222,6 +225,11 @@ func (w *World) run() {
 	defer func() {
 		grpctunnel.VerifSetYieldHook(nil)
 	}()
+	for _, si := range grpctunnel.VerifServers() {
+		if si.Seq > w.serverSeqBase {
+			w.serverSeqBase = si.Seq
+		}
+	}
 	w.installYields()
 	w.setPhase("setup")
 	if !w.setup() {
@@ -544,6 +552,9 @@ func (w *World) installYields() {
 			w.tr.Yields = append(w.tr.Yields, YieldRec{Point: point, Occ: occ, Step: w.step})
 		}
 		free := w.free
+		if hit != nil && hit.Kind == "park" && (w.phase == "setup" || w.phase == "") {
+			hit = nil // nobody schedules during set-up: a parked goroutine would never be released
+		}
 		w.mu.Unlock()
 		if hit == nil {
 			return
@@ -752,7 +763,7 @@ func (w *World) openTunnel(spec TunnelSpec, fatal bool) bool {
 		t.rec.Kind = "rev"
 		w.mu.Lock()
 		for len(w.servers) <= spec.Server {
-			rs := &revServer{idx: len(w.servers)}
+			rs := &revServer{idx: len(w.servers), conn: t.conn}
 			rs.rs = grpctunnel.NewReverseTunnelServer(stub, fcOpt(cfg.ClientFC)...)
 			rs.rs.RegisterService(&svcDesc, &Instance{w: w, idx: rs.idx})
 			if cfg.Dir == "nestedrev" {
@@ -783,7 +794,11 @@ func (w *World) openTunnel(spec TunnelSpec, fatal bool) bool {
 	default:
 		panic("bad dir " + cfg.Dir)
 	}
-	if cs := t.conn.Created(); len(cs) > 0 {
+	conn := t.conn
+	if t.server != nil && t.server.conn != nil {
+		conn = t.server.conn
+	}
+	if cs := conn.Created(); len(cs) > 0 {
 		t.carrier = cs[len(cs)-1]
 		t.rec.Carrier = t.carrier.Idx
 	}
@@ -807,6 +822,9 @@ func (w *World) serveLoop(t *tunnelState) {
 	}()
 	w.mu.Lock()
 	defer w.mu.Unlock()
+	if w.frozen {
+		return
+	}
 	t.rec.ServeStarted = started
 	t.rec.ServeReturned = w.step
 	if err != nil {
@@ -954,13 +972,21 @@ func bubbleGoroutines(withStacks bool) goroutineCounts {
 		buf = make([]byte, 2*len(buf))
 	}
 	var gc goroutineCounts
-	for _, g := range strings.Split(string(buf), "\n\n") {
+	// only goroutines of OUR bubble: the first goroutine of the dump is the caller; goroutines of earlier bubbles that
+	// could not exit (a case that ended in a bubble deadlock) stay in the process and must not be counted again
+	mine := ""
+	for gi, g := range strings.Split(string(buf), "\n\n") {
 		nl := strings.IndexByte(g, '\n')
 		if nl < 0 {
 			continue
 		}
 		hdr := g[:nl]
-		if !strings.Contains(hdr, "synctest bubble") {
+		if gi == 0 {
+			if i := strings.Index(hdr, "synctest bubble "); i >= 0 {
+				mine = strings.TrimRight(hdr[i:], "]:")
+			}
+		}
+		if !strings.Contains(hdr, "synctest bubble") || (mine != "" && !strings.Contains(hdr, mine+"]") && !strings.HasSuffix(strings.TrimRight(hdr, ":"), mine+"]")) {
 			continue
 		}
 		if !strings.Contains(g, "github.com/jhump/grpctunnel.") {
@@ -1017,6 +1043,9 @@ func (w *World) snapshot(phase string) *Snapshot {
 		sn.ClientTables = append(sn.ClientTables, ids)
 	}
 	for _, si := range grpctunnel.VerifServers() {
+		if si.Seq <= w.serverSeqBase {
+			continue // a tunnel server left over from an earlier case of this process
+		}
 		ids := si.StreamIDs
 		if ids == nil {
 			ids = []int64{}
@@ -1567,7 +1596,8 @@ func (w *World) opSend(r *rpcState, i int, rec *OpRec) {
 	w.appCall(rec, func() {
 		err := r.stream.SendMsg(m)
 		setErr(rec, err)
-		if err != nil {
+		if err != nil && i < len(r.spec.Req) {
+			// (a refused extra send on a non-streaming side does not end the call: the application goes on to half-close)
 			w.mu.Lock()
 			r.cliSendFailed = true
 			w.mu.Unlock()
@@ -1739,8 +1769,10 @@ func (w *World) logInvocation(inst *Instance, method string, ctx context.Context
 		select {
 		case <-ctx.Done():
 			w.mu.Lock()
-			inv.CtxDoneStep = w.step
-			inv.CtxErr = ctx.Err().Error()
+			if !w.frozen {
+				inv.CtxDoneStep = w.step
+				inv.CtxErr = ctx.Err().Error()
+			}
 			w.mu.Unlock()
 		case <-w.quit:
 		}
@@ -1813,7 +1845,9 @@ func unaryHandler(srv any, ctx context.Context, dec func(any) error, _ grpc.Unar
 	r, inv := w.logInvocation(inst, "unary", ctx)
 	defer func() {
 		w.mu.Lock()
-		inv.Returned = w.step
+		if !w.frozen {
+			inv.Returned = w.step
+		}
 		if r != nil {
 			r.hReturned = true
 		}
@@ -1936,7 +1970,9 @@ func streamHandlerFor(shape string) grpc.StreamHandler {
 		r, inv := w.logInvocation(inst, shape, ctx)
 		defer func() {
 			w.mu.Lock()
-			inv.Returned = w.step
+			if !w.frozen {
+				inv.Returned = w.step
+			}
 			if r != nil {
 				r.hReturned = true
 				if ra := r.hRecvActor; ra != nil {
@@ -2312,7 +2348,9 @@ func (w *World) fire(i int) {
 		go func() {
 			w.eventCall(rec, f)
 			w.mu.Lock()
-			rec.Returned = w.step
+			if !w.frozen {
+				rec.Returned = w.step
+			}
 			w.mu.Unlock()
 		}()
 	}
@@ -2489,6 +2527,28 @@ func (w *World) drainDeliveries() {
 func (w *World) finish() {
 	w.settle()
 	w.snapshot("final")
+	// freeze what had not returned by now: everything after this point is the harness's own teardown
+	w.mu.Lock()
+	for _, o := range w.tr.Ops {
+		if o.End < 0 {
+			o.PendingAtEnd = true
+		}
+	}
+	for _, e := range w.tr.Events {
+		if e.Fired >= 0 && e.Returned < 0 {
+			e.PendingAtEnd = true
+		}
+	}
+	for _, inv := range w.tr.Invocations {
+		if inv.Returned < 0 {
+			inv.Returned = -2 // never returned on its own
+		}
+		if inv.CtxDoneStep < 0 {
+			inv.CtxDoneStep = -2
+		}
+	}
+	w.frozen = true
+	w.mu.Unlock()
 	w.tr.Frames = w.net.Frames()
 	w.tr.Panics = append(w.tr.Panics, w.net.Panics()...)
 	w.mu.Lock()
